@@ -63,13 +63,19 @@ FTextItems(which) ==
         toks == IF which = "flags" THEN HTok ELSE ETok
     IN  TokSeqs(toks, IF Thorough THEN 3 ELSE 2) \cup Subseqs(names) \cup {Reverse(s) : s \in Subseqs(names)}
 
-(* header machine *)
+(* header machine: the full call universe, and a small one for deeper behaviours *)
 GOps == 0..15
 GRcs == {0, 1, 5, 15, 16, 17, 23, 255, 256, 4095}
 GVers == {0, 1, 255}
 GELos == {0, 32768, 16384, 65535}
 GXrs == {0, 1}
-GInitFlags == IF Thorough THEN {10629} ELSE {0, 65535, 33152, 10629}
+GInitFlags == IF Thorough THEN {0, 65535, 33152, 10629} ELSE {65535, 10629}
+SOps == {0, 5, 15}
+SRcs == {0, 15, 16, 4095}
+SNames == {"QR", "CD"}
+SVers == {0, 255}
+SELos == {0, 65535}
+SInitFlags == {10629, 65535}
 (* registration machine *)
 GRVals == {65280, 65281, 1}
 GRTexts == {"FOO", "foo", "Foo-Bar", "A", "TYPE65281", "BAR"}
